@@ -269,11 +269,15 @@ class Histories(SubCheck):
             op, _, mname = ev.partition(":")
             tags = dict(obj=oname, mag=mag, event=ev, step=step, history=case["history"], own=list(own))
             try:
-                if op in ("mul", "imul", "muls", "imuls"):
+                if op in ("mul", "imul", "muls", "imuls", "mult"):
                     M = MATS[mname]
                     lm = mobj.setdefault(mname, svg.Matrix(*M))
                     arg = lm
-                    if op.endswith("s"):
+                    if op == "mult":
+                        # the map written as a transform function with an upper / mixed-case unit
+                        arg = {"R90": "rotate(0.25TURN)", "R30": "Rotate(30DEG)", "R180": "rotate(200GRAD)", "T": "translate(3PX,-2px)"}[mname]
+                        op = "mul"
+                    elif op.endswith("s"):
                         # the right operand as transform text
                         arg = "matrix(%s)" % ",".join(repr(float(v)) for v in M)
                         op = op[:-1]
@@ -379,7 +383,7 @@ def build(tier, seed, svg):
     segnames = list(seg_alphabet(svg, 1.0))
     pathnames = list(path_alphabet(svg))
     mats = MNAMES
-    ev_seg = ["mul:" + m for m in mats] + ["imul:" + m for m in mats] + ["muls:MX", "muls:GN", "imuls:SWAP", "imuls:S23"]
+    ev_seg = ["mul:" + m for m in mats] + ["imul:" + m for m in mats] + ["muls:MX", "muls:GN", "imuls:SWAP", "imuls:S23", "mult:R90", "mult:R30", "mult:R180", "mult:T"]
     ev_shape = ev_seg + ["reify", "abs", "topath"] + ["matmul:" + m for m in ("T", "R30", "S23", "GN")] + ["imatmul:" + m for m in ("T", "S23", "SWAP")]
     depth = 3 if tier == "thorough" else 2
     seg_objs = [(n, mag) for n in segnames for mag in (1.0, 1e-3, 1e5)]
